@@ -12,7 +12,7 @@ TRUSTED = ["the reply regexes (RGB_SPEC_re, XTVERSION_re, KITTY_RESPONSE_re) ext
            "a terminal answers each supported query with one well-formed reply; query_terminal returns None when queries are disabled"]
 ASSUMPTIONS = []
 NOT_DECIDED = ["wall-clock behaviour: whether replies arriving after arbitrary delays land before the time-out (select / monotonic clock)",
-               "'no reply bytes remain unread afterwards' (needs a stream model of the tty with the unit-write assumption; not built)"]
+               "'no reply bytes remain unread afterwards' is decided up to the property's own premise: proved on the real loops: the timed read never consumes past the first point where its predicate is satisfied, the drain consumes everything that has arrived, the drain is called after every enabled query; that the rest of a reply HAS arrived once its beginning was read is the unit-write premise"]
 
 
 def pow16(l):
